@@ -8,6 +8,7 @@ R12.3 validate, then mutate: in every function that mutates the tree of its `sel
       explicit user-triggerable `raise` and no call that can raise one is reachable after the first mutation of that tree
       (path sensitive, callees specialised by constant arguments; a raising-then-mutating callee is analysed itself).
 R12.4 = R20.5 (options rejected before anything is touched).
+R12.7 a caller-supplied FST that is adopted as the code without going through a `code_as*` normaliser is checked to be a root first.
 R12.6 admission guards: every path that installs caller-supplied code checks "not circular" and "not consumed" before the first mutation.
 Not decided: implicit exceptions (AttributeError / IndexError from a corrupted intermediate state); that the next valid
 edit satisfies C01.
@@ -46,6 +47,7 @@ def run(ctx):
 
 # ----------------------------------------------------------------------------------------------------------------------
     check_admission_guards(ctx)
+    check_passthrough_is_root(ctx)
 
 
 def check_lock_typestate(ctx):
@@ -696,3 +698,81 @@ def check_admission_guards(ctx):
                           f'caller-supplied code is installed on a path that did not check for a {name.split(" (")[0]}: e.g. a consumed FST (its .a is None) '
                           f'is grafted after the source lines were already replaced, leaving the tree without an AST', (bad[0].lineno if bad else fi.lineno),
                           sample={'function': fi.key, 'guard': name, 'guard_sites': len(gset)})
+
+
+# ---- R12.7 -----------------------------------------------------------------------------------------------------------
+
+def check_passthrough_is_root(ctx):
+    """The `code_as*` normalisers reject an FST that is not the root of its own tree ("expecting root node") before anything happens.
+    A coercion helper that passes a caller-supplied FST *through* (`fst_ = code` under an "is FST" test, no normaliser on that path) has
+    to make the same check itself before it uses the node: otherwise a node that still sits in a tree (possibly the target tree) is
+    edited in place (`_delimit_node()`), grafted, and the request fails later with the trees already changed."""
+    ctx.rule('R12.7', 'a caller-supplied FST adopted as the code without a code_as* normaliser is checked to be a root before it is used', 3)
+    n = 0
+    for fi in ctx.repo.all_funcs():
+        if isinstance(fi.node, ast.Lambda) or fi.module not in ('fst_put_slice', 'fst_put_one', 'slice_exprlike', 'slice_stmtlike') or 'code' not in fi.params():
+            continue
+        adopts = [x for x in walk_no_nested(fi.node) if isinstance(x, ast.Assign) and len(x.targets) == 1 and isinstance(x.targets[0], ast.Name) and
+                  isinstance(x.value, ast.Name) and x.value.id == 'code' and x.targets[0].id != 'code']
+        if not adopts:
+            continue
+        cfg = CFG(fi.node)
+
+        def root_test(nd):
+            # `if code.parent: raise` / `if not code.is_root: raise` (on `code` or on the adopting local)
+            if nd.kind != 'test' or not isinstance(nd.ast, ast.expr):
+                return False
+            return any(isinstance(y, ast.Attribute) and y.attr in ('parent', 'is_root') and isinstance(y.value, ast.Name) and y.value.id in names
+                       for y in ast.walk(nd.ast))
+        for asg in adopts:
+            var = asg.targets[0].id
+            names = {'code', var}
+            # is the adopted value used as a node afterwards (method call on it / handed to a callee)?  then every path from the function
+            # entry to the adoption must have passed the root test
+            used = any(isinstance(y, ast.Call) and ((isinstance(y.func, ast.Attribute) and isinstance(y.func.value, ast.Name) and y.func.value.id == var) or
+                                                    any(isinstance(a, ast.Name) and a.id == var for a in y.args))
+                       for y in walk_no_nested(fi.node)) or \
+                any(isinstance(y, ast.Return) and y.value is not None and any(isinstance(z, ast.Name) and z.id == var for z in ast.walk(y.value))
+                    for y in walk_no_nested(fi.node))
+            if not used:
+                continue
+            # "either normalise here or the caller already did": the adoption is one arm of an `if` on another *parameter* (e.g. `validated`)
+            # whose other arm calls a code_as* normaliser
+            par_ = parent_map(fi.node)
+            cur, delegated = asg, False
+            while cur in par_:
+                up = par_[cur]
+                if isinstance(up, ast.If) and (cur in up.body or cur in up.orelse):
+                    other = up.orelse if cur in up.body else up.body
+                    tnames = {y.id for y in ast.walk(up.test) if isinstance(y, ast.Name)}
+                    if tnames and tnames <= set(fi.params()) - {'code'} and \
+                            any(isinstance(y, ast.Call) and 'code_as' in (call_name(y) or '') for o in other for y in ast.walk(o)):
+                        delegated = True
+                cur = up
+            if delegated:
+                continue
+            n += 1
+            tests = {nd.id for nd in cfg.nodes if root_test(nd)}
+            anodes = [nd for nd in cfg.nodes if any(y is asg for y in subnodes(cfg, nd))]
+            reach = cfg.reachable(cfg.entry, lambda n_, lab, s_: lab != 'exc', stop=tests) | {cfg.entry}
+            ok = bool(anodes) and all(nd.id not in reach for nd in anodes)
+            if not ok and anodes:
+                # ... or the check comes right after the adoption: no use of the adopted node is reachable from it without passing the test
+                def uses(nd):
+                    if nd.id in tests:
+                        return False
+                    return any((isinstance(y, ast.Call) and ((isinstance(y.func, ast.Attribute) and isinstance(y.func.value, ast.Name) and y.func.value.id == var) or
+                                                             any(isinstance(a, ast.Name) and a.id == var for a in y.args))) or
+                               (isinstance(y, ast.Return) and y.value is not None and any(isinstance(z, ast.Name) and z.id == var for z in ast.walk(y.value)))
+                               for y in subnodes(cfg, nd))
+                ok = True
+                for nd in anodes:
+                    after = cfg.reachable(nd.id, lambda n_, lab, s_: lab != 'exc', stop=tests)
+                    if any(uses(cfg.nodes[i]) for i in after if i != nd.id):
+                        ok = False
+            ctx.check('R12.7', ok, fi.module, fi.qualname, f'{norm(asg)} (caller-supplied node passed through)',
+                      f'`{var} = code` adopts the caller\'s FST without the "expecting root node" check the code_as* normalisers make: a node that is '
+                      f'still part of a tree (even of the target tree) is edited in place and grafted, and the request fails afterwards with both '
+                      f'trees changed', asg.lineno, sample={'function': fi.key, 'adoption': norm(asg)})
+    if n < 3:
+        raise AnalysisError(f'only {n} pass-through adoptions of caller-supplied nodes found')
